@@ -175,7 +175,8 @@ struct Runner {
   }
 
   // returns false when the line is the start of another case
-  void line(const std::string& cmd, Toks& tk) {
+  // the command itself and its `res' / `ans' line (the state dump follows, outside any raised abandon flag)
+  void exec(const std::string& cmd, Toks& tk) {
     if (cmd == "new" || cmd == "copy" || cmd == "op") {
       try {
         if (cmd == "new") do_new(tk);
@@ -186,17 +187,23 @@ struct Runner {
         if (std::string(e.what()).substr(0, 5) == "case:") throw;
         std::cout << "res exn " << exn_class(e) << "\n";
       }
-      print_all();
     }
-    else if (cmd == "qry") {
+    else {
       try { do_qry(tk); }
       catch (const std::exception& e) { if (std::string(e.what()).substr(0, 5) == "case:") throw; std::cout << "ans exn " << exn_class(e) << "\n"; }
-      print_all();
     }
+  }
+  void line(const std::string& cmd, Toks& tk) {
+    if (cmd == "new" || cmd == "copy" || cmd == "op" || cmd == "qry") { exec(cmd, tk); print_all(); }
     else if (cmd == "cw") do_cw(tk);
     else throw std::runtime_error("case: unknown command " + cmd);
   }
 };
+
+// a Throwable that is never thrown: raises the abandon flag without making the components give up
+struct Never_Thrown : public Throwable { void throw_me() const {} ~Never_Thrown() {} };
+static Never_Thrown never_thrown;
+struct Hurry { Hurry() { abandon_expensive_computations = &never_thrown; } ~Hurry() { abandon_expensive_computations = 0; } };
 
 int main(int argc, char** argv) {
   if (argc < 2) { std::cerr << "usage: run_pset casefile\n"; return 2; }
@@ -209,6 +216,13 @@ int main(int argc, char** argv) {
     try {
       if (cmd == "case") { rc.clear(); rn.clear(); std::cout << "case " << tk.next() << "\n"; nnc = (tk.next() == "NNC"); }
       else if (cmd == "end") std::cout << "end\n";
+      else if (cmd == "hurry") {   // the rest of the line is executed with abandon_expensive_computations raised
+        std::string c2 = tk.next();
+        if (c2 != "op" && c2 != "qry") throw std::runtime_error("case: hurry applies to op / qry");
+        if (nnc) { Hurry h; try { rn.exec(c2, tk); } catch (...) { abandon_expensive_computations = 0; throw; } }
+        else { Hurry h; try { rc.exec(c2, tk); } catch (...) { abandon_expensive_computations = 0; throw; } }
+        if (nnc) rn.print_all(); else rc.print_all();
+      }
       else if (nnc) rn.line(cmd, tk); else rc.line(cmd, tk);
     } catch (const std::exception& e) {
       std::cout << "HARNESS-ERROR " << e.what() << " in: " << ln << std::endl;
